@@ -23,7 +23,7 @@ from model.resp import (
 )
 
 REPLY_TIMEOUT = 150.0  # virtual seconds; > asimap's 120 s command watchdog
-PROMPT_BOUND = 30.0  # C06 promptness bound (virtual seconds)
+PROMPT_BOUND = 100.0  # C06 promptness bound (virtual seconds; below the 120 s watchdog - slow I/O profiles legitimately take tens of seconds)
 
 _PAYLOAD_KINDS = {"SEARCH", "LIST", "LSUB", "STATUS", "NAMESPACE", "ID", "CAPABILITY"}
 _NONUID_FSS = {"FETCH", "STORE", "SEARCH"}
